@@ -17,7 +17,19 @@ import (
 	"time"
 )
 
-const VerifDir = "/verif"
+// VerifDir is the root of the verification tree: the directory ./check runs in (normally /verif; a snapshot
+// worktree when started through `vp run`).
+var VerifDir = func() string {
+	if d := os.Getenv("VERIF_DIR"); d != "" {
+		return d
+	}
+	if wd, err := os.Getwd(); err == nil {
+		if _, err := os.Stat(filepath.Join(wd, "spec")); err == nil {
+			return wd
+		}
+	}
+	return "/verif"
+}()
 
 // Exit codes of a check.
 const (
